@@ -842,19 +842,63 @@ func (m *Machine) fmtValue(v Value) string {
 	return fmt.Sprintf("<%T>", v)
 }
 
+// fmtTerms renders one operand as bytes: symbolic strings keep their byte terms, symbolic
+// integers get exact decimal digits (the strconv contract, forking on sign/width); everything else
+// goes through the best-effort text of fmtValue.
+func (m *Machine) fmtTerms(v Value, verb byte, plain bool) []*Term {
+	conc := func(s string) []*Term {
+		out := make([]*Term, len(s))
+		for i := 0; i < len(s); i++ {
+			out[i] = byteTerm(s[i])
+		}
+		return out
+	}
+	if it, ok := v.(Iface); ok && it.T != nil {
+		// strings and integers inside interfaces (the usual ...any operand)
+		switch inner := it.V.(type) {
+		case Str:
+			if !inner.IsConc() && m.findMethod(it, "Error") == nil && m.findMethod(it, "String") == nil {
+				v = inner
+			}
+		case *Term:
+			if !inner.IsConst() && inner.sort == SInt && m.findMethod(it, "Error") == nil && m.findMethod(it, "String") == nil {
+				if b, isBasic := it.T.Underlying().(*types.Basic); isBasic && b.Info()&types.IsInteger != 0 {
+					v = inner
+				}
+			}
+		}
+	}
+	switch x := v.(type) {
+	case Str:
+		if !x.IsConc() && plain && (verb == 's' || verb == 'v') {
+			out := make([]*Term, x.Len())
+			for i := range out {
+				out[i] = x.At(i)
+			}
+			return out
+		}
+	case *Term:
+		if !x.IsConst() && x.sort == SInt && plain && (verb == 'd' || verb == 'v') {
+			return m.decimalBytes(x)
+		}
+	}
+	return conc(m.fmtValue(v))
+}
+
 func (m *Machine) sprintf(format Str, args sliceV) Str {
 	if !format.IsConc() {
 		return Str{s: "<sym-format>"}
 	}
-	var sb strings.Builder
+	var out []*Term
 	ai := 0
 	f := format.s
 	for i := 0; i < len(f); i++ {
 		if f[i] != '%' {
-			sb.WriteByte(f[i])
+			out = append(out, byteTerm(f[i]))
 			continue
 		}
 		i++
+		start := i
 		for i < len(f) && strings.IndexByte("+-# 0123456789.", f[i]) >= 0 {
 			i++
 		}
@@ -862,17 +906,19 @@ func (m *Machine) sprintf(format Str, args sliceV) Str {
 			break
 		}
 		if f[i] == '%' {
-			sb.WriteByte('%')
+			out = append(out, byteTerm('%'))
 			continue
 		}
 		if ai < args.len {
-			sb.WriteString(m.fmtValue(*args.at(ai)))
+			out = append(out, m.fmtTerms(*args.at(ai), f[i], i == start)...)
 			ai++
 		} else {
-			sb.WriteString("%!" + string(f[i]) + "(MISSING)")
+			for _, c := range []byte("%!" + string(f[i]) + "(MISSING)") {
+				out = append(out, byteTerm(c))
+			}
 		}
 	}
-	return Str{s: sb.String()}
+	return mkStrTerms(out)
 }
 
 func (m *Machine) sprint(args sliceV, sep string) Str {
@@ -965,9 +1011,34 @@ func registerErrors() {
 		s := m.sprint(a[0].(sliceV), " ")
 		return Str{s: s.s + "\n"}
 	}
-	for _, n := range []string{"fmt.Printf", "fmt.Println", "fmt.Print", "fmt.Fprintf", "fmt.Fprintln", "fmt.Fprint",
-		"log.Printf", "log.Println", "log.Print"} {
+	for _, n := range []string{"fmt.Printf", "fmt.Println", "fmt.Print", "log.Printf", "log.Println", "log.Print"} {
 		I[n] = func(m *Machine, fr *frame, fn *ssa.Function, a []Value) Value { return zeroResult(fn) }
+	}
+	// Fprintf / Fprint / Fprintln: the rendered text is written with one Write call
+	fwrite := func(m *Machine, fr *frame, w Value, text Str) Value {
+		it, ok := w.(Iface)
+		if !ok || it.T == nil {
+			m.rtPanic("invalid memory address or nil pointer dereference")
+		}
+		wf := m.findMethod(it, "Write")
+		if wf == nil {
+			m.unsupported("Fprintf to a value without Write")
+		}
+		bs := make([]Value, text.Len())
+		for i := range bs {
+			bs[i] = text.At(i)
+		}
+		return m.call(fr, 0, wf, []Value{it.V, sliceV{a: bs, len: len(bs), cap: len(bs)}}, nil)
+	}
+	I["fmt.Fprintf"] = func(m *Machine, fr *frame, fn *ssa.Function, a []Value) Value {
+		return fwrite(m, fr, a[0], m.sprintf(a[1].(Str), a[2].(sliceV)))
+	}
+	I["fmt.Fprint"] = func(m *Machine, fr *frame, fn *ssa.Function, a []Value) Value {
+		return fwrite(m, fr, a[0], m.sprint(a[1].(sliceV), ""))
+	}
+	I["fmt.Fprintln"] = func(m *Machine, fr *frame, fn *ssa.Function, a []Value) Value {
+		s := m.sprint(a[1].(sliceV), " ")
+		return fwrite(m, fr, a[0], strConcat(s, Str{s: "\n"}))
 	}
 	// fmt.Errorf: a *fmt.wrapError when the format has %w and an error operand, else *fmt.fmtError-like errorString
 	I["fmt.Errorf"] = func(m *Machine, fr *frame, fn *ssa.Function, a []Value) Value {
@@ -1214,6 +1285,39 @@ func registerStrings() {
 	I["internal/stringslite.Clone"] = func(m *Machine, fr *frame, fn *ssa.Function, a []Value) Value { return a[0] }
 	I["strconv.cloneString"] = func(m *Machine, fr *frame, fn *ssa.Function, a []Value) Value { return a[0] }
 	I["strings.Clone"] = func(m *Machine, fr *frame, fn *ssa.Function, a []Value) Value { return a[0] }
+	// strings.Fields: the library's ASCII fast path counts fields with table lookups and bit tricks,
+	// which makes the result length a hard symbolic term. Contract used instead: the string is cut
+	// at bytes that are ASCII white space (one branch per symbolic byte); bytes >= 0x80 count as
+	// non-space (U+0085 / U+00A0 as separators are outside the model).
+	I["strings.Fields"] = func(m *Machine, fr *frame, fn *ssa.Function, a []Value) Value {
+		st := a[0].(Str)
+		isSpace := func(b *Term) bool {
+			if b.IsConst() {
+				c := b.Int64()
+				return c == ' ' || c == '\t' || c == '\n' || c == '\v' || c == '\f' || c == '\r'
+			}
+			return m.branch(tOr(tEq(b, mkInt64(' ')), tAnd(tCmp(">=", b, mkInt64('\t')), tCmp("<=", b, mkInt64('\r')))))
+		}
+		var fields []Value
+		start := -1
+		for i := 0; i < st.Len(); i++ {
+			if isSpace(st.At(i)) {
+				if start >= 0 {
+					fields = append(fields, st.Slice(start, i))
+					start = -1
+				}
+			} else if start < 0 {
+				start = i
+			}
+		}
+		if start >= 0 {
+			fields = append(fields, st.Slice(start, st.Len()))
+		}
+		if len(fields) == 0 {
+			return sliceV{nil: false, a: []Value{}, len: 0, cap: 0}
+		}
+		return sliceV{a: fields, len: len(fields), cap: len(fields)}
+	}
 	I["unique.Make"] = nil
 	delete(I, "unique.Make")
 }
@@ -1291,11 +1395,6 @@ func registerMisc() {
 			return tInf(1)
 		}
 		return tInf(-1)
-	}
-	// pandora: grpc/json line decoding goes through jsoniter (reflection): every line is taken
-	// as a valid entry, the pooled ammo object is returned unchanged
-	I["github.com/yandex/pandora/components/providers/grpc/grpcjson.decodeAmmo"] = func(m *Machine, fr *frame, fn *ssa.Function, a []Value) Value {
-		return tuple{a[1], Iface{}}
 	}
 	// antchfx/xpath: contract-level stubs (result type is decided by the outermost function)
 	I["github.com/antchfx/xpath.Compile"] = func(m *Machine, fr *frame, fn *ssa.Function, a []Value) Value {
@@ -1591,6 +1690,10 @@ func init() {
 	I["(*text/template.Template).Funcs"] = func(m *Machine, fr *frame, fn *ssa.Function, a []Value) Value { return a[0] }
 	I["(*text/template.Template).Option"] = func(m *Machine, fr *frame, fn *ssa.Function, a []Value) Value { return a[0] }
 	I["(*text/template.Template).Parse"] = func(m *Machine, fr *frame, fn *ssa.Function, a []Value) Value {
+		// the source text is remembered: a template without actions renders as its own text
+		if p, ok := a[0].(*Value); ok && p != nil {
+			m.side[p] = a[1]
+		}
 		return tuple{a[0], Iface{}}
 	}
 	// Execute writes an opaque rendering ("<rendered>") to the writer
@@ -1603,10 +1706,21 @@ func init() {
 		if f == nil {
 			m.unsupported("template.Execute: writer without Write")
 		}
-		s := "<rendered>"
-		arr := make([]Value, len(s))
+		// a template whose (concrete) text has no action renders as that text, exactly as the real
+		// library does; anything else renders as an opaque text that still depends on the source
+		var out Str = Str{s: "<rendered>"}
+		if p, ok := a[0].(*Value); ok && p != nil {
+			if src, ok := m.side[p].(Str); ok {
+				if src.IsConc() && !strings.Contains(src.s, "{{") {
+					out = src
+				} else {
+					out = strConcat(strConcat(Str{s: "<rendered:"}, src), Str{s: ">"})
+				}
+			}
+		}
+		arr := make([]Value, out.Len())
 		for i := range arr {
-			arr[i] = byteTerm(s[i])
+			arr[i] = out.At(i)
 		}
 		m.call(fr, 0, f, []Value{w.V, sliceV{a: arr, len: len(arr), cap: len(arr)}}, nil)
 		return Iface{}
